@@ -118,6 +118,12 @@ def make_run(seed, i):
         # process-global default registry: the state in which lazily built registry data would be observed half-built
         fixed = dict(scalar_kinds=["str_int", "str_float", "str_int", "str_float", "str_bool", "str_plain"], p_hetero=0.8,
                      p_null=0.0, p_container=0.0, width=rng.randint(2, 5), samples=rng.randint(3, 6), p_self=0.0)
+    if n >= 2 and not shared_nested and not shared_registry and rng.random() < 0.15:
+        # every thread detects date / time strings (some only parse with a warning: unknown timezone abbreviations) -
+        # the state in which process-wide settings changed around a detection call (warnings filters, locale, parser
+        # defaults) would be seen by a neighbour
+        fixed = dict(fixed, scalar_kinds=["str_time_tz", "str_time_tz", "str_time", "str_datetime", "str_date", "str_plain", "int"],
+                     p_hetero=0.5, p_datetime=1.0, p_container=0.0, samples=rng.randint(3, 6))
     for t in range(n):
         # (bulk sample lists are excluded: under line tracing with frequent baton hand-offs they take minutes)
         w = gen_workload(seeds.derive(seed, PROP, i, "thread", 0 if same_doc else t), **dict(fixed, bulk=0))
